@@ -20,7 +20,10 @@ Open Scope N_scope.
 
 (* One log of the L2 GER manager: UpdateHashChainValue (l_rm = false, insertion of l_ger) or
    UpdateRemovalHashChainValue (l_rm = true). l_idx is what l1InfoTreeSync.GetInfoByGlobalExitRoot(l_ger)
-   answers for the L1 info tree index (an oracle for this package); it is not used for removals. *)
+   answers for the L1 info tree index (an oracle for this package); it is not used for removals.
+   While the L1 info tree syncer has not stored the leaf yet the lookup fails, the appender returns the error and
+   GetEventsByBlockRange retries the same log until it succeeds (sync/evmdownloader.go, loop around appenderFn):
+   the model is the outcome of that loop, i.e. the event always carries the index, it is never dropped. *)
 Record log := { l_rm : bool; l_ger : N; l_idx : N }.
 
 (* An L2 history: the GER-manager logs of every block, in log order. The property quantifies over histories
@@ -226,3 +229,54 @@ Definition last_polls (segs : list segment) : list N := snd (last segs (None, []
 Definition ins (g i : N) : log := {| l_rm := false; l_ger := g; l_idx := i |}.
 Definition rmv (g : N) : log := {| l_rm := true; l_ger := g; l_idx := 0 |}.
 Definition chain_of (h : list (N * log)) : chain := fun n => map snd (filter (fun p => fst p =? n) h).
+
+(* ------------------------------------------------------------------------------------------------ *)
+(* ProcessBlock under an injected storage fault (properties C07 / C04 quantify over this store too)  *)
+(* ------------------------------------------------------------------------------------------------ *)
+
+(* which kind of row write a storage statement performs; a fault is "the k-th (from 0) row write of that kind
+   inside this ProcessBlock call fails" (SQL trigger raising ABORT: the statement is undone, the transaction stays
+   usable, the Go code gets an error from tx.Exec / meddler.Insert). DELETE ... WHERE global_exit_root = $1 writes
+   one row per deleted row. *)
+Inductive gtable := GBlockIns | GGerIns | GGerDel.
+Definition gtable_eqb (a b : gtable) : bool :=
+  match a, b with GBlockIns, GBlockIns | GGerIns, GGerIns | GGerDel, GGerDel => true | _, _ => false end.
+Definition gfault := option (gtable * nat).     (* None = no fault *)
+Inductive gerr := GFault | GConstraint.
+
+(* transaction context: working rows of imported_global_exit_root, row-write counters *)
+Record gtx := mkGtx { g_rows : list row; g_ins : nat; g_del : nat }.
+
+(* is one of the writes number lo .. lo+n-1 of kind t the faulted one? *)
+Definition hits_at (f : gfault) (t : gtable) (lo n : nat) : bool :=
+  match f with
+  | Some (t', k) => gtable_eqb t t' && Nat.leb lo k && Nat.ltb k (lo + n)
+  | None => false
+  end.
+
+(* handleGEREvent / handleGERInsertion inside the transaction *)
+Definition process_event_f (f : gfault) (b : N) (x : gtx) (e : event) : gerr + gtx :=
+  if l_rm e then
+    let m := length (filter (fun r => r_ger r =? l_ger e) (g_rows x)) in
+    if hits_at f GGerDel (g_del x) m then inl GFault
+    else inr (mkGtx (filter (fun r => negb (r_ger r =? l_ger e)) (g_rows x)) (g_ins x) (g_del x + m))
+  else if hits_at f GGerIns (g_ins x) 1 then inl GFault
+  else if existsb (fun r => r_blk r =? b) (g_rows x) then inl GConstraint
+  else inr (mkGtx (g_rows x ++ [{| r_blk := b; r_ger := l_ger e; r_idx := l_idx e |}]) (S (g_ins x)) (g_del x)).
+
+Fixpoint process_events_f (f : gfault) (b : N) (x : gtx) (evs : list event) : gerr + gtx :=
+  match evs with
+  | [] => inr x
+  | e :: t => match process_event_f f b x e with inl err => inl err | inr x' => process_events_f f b x' t end
+  end.
+
+(* ProcessBlock: every error is returned (`return err`), the deferred tx.Rollback() then discards the whole
+   transaction, block row included; only the fault-free path reaches tx.Commit(). *)
+Definition process_block_f (f : gfault) (st : store) (blk : block) : option gerr * store :=
+  let '(b, evs) := blk in
+  if hits_at f GBlockIns 0 1 then (Some GFault, st)
+  else if existsb (N.eqb b) (s_blocks st) then (Some GConstraint, st)
+  else match process_events_f f b (mkGtx (s_rows st) 0 0) evs with
+       | inl err => (Some err, st)
+       | inr x => (None, {| s_blocks := s_blocks st ++ [b]; s_rows := g_rows x |})
+       end.
